@@ -123,8 +123,16 @@ fn now_us() -> u64 {
 /// Nonce pool: the k-th valid request of a protocol on a socket uses pool[(k/2) mod 2], so the first
 /// requests of different sockets are byte-identical, a socket's second request is a byte-identical
 /// retransmission of its first, its third differs, and its fifth repeats its first.
+/// The second pool entry of the IETF protocol names the classic version number before draft-13 in
+/// its VER list (still an IETF request: it is framed and offers draft-13 among its first four).
 pub fn pool_request(v: Version, k: usize) -> Vec<u8> {
-    std_request(v, &nonce(0x9000 + ((k / 2) % 2) as u64, v.nonce_len()))
+    let p = (k / 2) % 2;
+    if v == Version::Ietf13 && p == 1 {
+        let mut ver = vec![0u8, 0, 0, 0];
+        ver.extend_from_slice(&rtref::proto::VER_IETF13);
+        return rtref::responder::ietf_request(&ver, None, &nonce(0x9000 + p as u64, 32), 1024);
+    }
+    std_request(v, &nonce(0x9000 + p as u64, v.nonce_len()))
 }
 
 /// Datagrams that must be rejected. The variant rotates with the event's position in the history,
@@ -133,8 +141,9 @@ pub fn pool_request(v: Version, k: usize) -> Vec<u8> {
 ///  1: an empty datagram; 2: a 7-byte runt
 ///  3 / 4: over-long (1600 bytes) whose first 1500 bytes are a well-formed classic / IETF request
 ///  5: a valid classic request cut to 1020 bytes (below the minimum)
+///  6: a framed request naming only the classic version number (no supported version for a frame)
 pub fn bad_datagram(variant: usize) -> Vec<u8> {
-    match variant % 6 {
+    match variant % 7 {
         0 => {
             // right length, not a message
             let mut d = vec![0x03, 0, 0, 0, 0xff, 0xff, 0xff, 0xff];
@@ -153,6 +162,7 @@ pub fn bad_datagram(variant: usize) -> Vec<u8> {
             d.resize(1600, 0);
             d
         }
+        6 => rtref::responder::ietf_request(&[0, 0, 0, 0], None, &nonce(0x9103, 32), 1024),
         _ => {
             let mut d = rtref::responder::classic_request(&nonce(0x9102, 64), 1024);
             d.truncate(1020);
